@@ -132,6 +132,17 @@ def run(c, chk):
     typed_members(c, chk, 'R9.10')
     list_calls_need_a_list(c, chk)
     success_means_stored(c, chk)
+    if not isinstance(chk, report.SubCheck):
+        # R9.16: "the first explicit store drops the built-in defaults" - once: the mark that says "defaults still in place" is cleared
+        # by the store that drops them, whatever the option held (the typestate rule of C01 R1.3)
+        from . import c01 as _c01r, c08 as _c08r, c07 as _c07r
+        chk.rule('R9.16', 'a value is appended under CFGF_RESET only after the defaults were dropped and the mark cleared (rule R1.3 of C01): the second store does not throw the first away')
+        _c01r.reset_typestate(c, _c08r.chk_proxy(chk, {'R1.3': 'R9.16'}), pm.ParserModel(c))
+        # R9.17: a removal leaves the option a well-formed (possibly empty) store: nothing released stays reachable from it
+        chk.rule('R9.17', 'the removal API leaves no released pointer in the option (rule R7.2 of C07)')
+        sub7 = report.SubCheck(chk, 'R9.17', 'C07', only=('R7.2',))
+        _c07r.run(c, sub7)
+        sub7.done('released pointers')
     list_element_width(c, chk)
     # R9.12: "an unknown name fails without effect", "removal by path": the by-name calls address what the resolver finds
     if not isinstance(chk, report.SubCheck):
